@@ -424,6 +424,8 @@ def value(rng, t):
             return ("gate", 1, None)          # dead: the last strong reference is gone
         if g in ("RefCell", "Rc", "Arc", "Mutex", "RwLock", "RefRefCell", "RefMutex", "RefRwLock") and r < 0.3:
             st = 2
+        elif g in ("RefCell", "RefRefCell") and r < 0.5:
+            st = 3            # an outstanding shared borrow: reads and &mut access work, try_borrow_mut does not
         if g == "Cow" and r < 0.5:
             return ("gate", 0, value(rng, t["t"]), "borrowed")
         return ("gate", st, value(rng, t["t"]))
@@ -507,13 +509,13 @@ def rust_build(t, val):
         if g == "Ref":
             return "{ let r: &'static %s = Box::leak(Box::new(%s)); r }" % (ity, inner)
         if g == "RefRefCell":
-            return "{ let c: &'static RefCell<%s> = Box::leak(Box::new(RefCell::new(%s))); %sc }" % (ity, inner, "std::mem::forget(c.borrow_mut()); " if st == 2 else "")
+            return "{ let c: &'static RefCell<%s> = Box::leak(Box::new(RefCell::new(%s))); %sc }" % (ity, inner, "std::mem::forget(c.borrow_mut()); " if st == 2 else ("std::mem::forget(c.borrow()); " if st == 3 else ""))
         if g in ("RefMutex", "RefRwLock"):
             cell, lock = ("Mutex", "lock") if g == "RefMutex" else ("RwLock", "write")
             return ("{ let m: &'static %s<%s> = Box::leak(Box::new(%s::new(%s))); %sm }" % (cell, ity, cell, inner, (
                 "let _ = std::panic::catch_unwind(std::panic::AssertUnwindSafe(|| { let _g = m.%s().unwrap(); panic!(\"poison\") })); " % lock) if st == 2 else ""))
         if g == "RefCell":
-            return "{ let c: RefCell<%s> = RefCell::new(%s); %sc }" % (ity, inner, "std::mem::forget(c.borrow_mut()); " if st == 2 else "")
+            return "{ let c: RefCell<%s> = RefCell::new(%s); %sc }" % (ity, inner, "std::mem::forget(c.borrow_mut()); " if st == 2 else ("std::mem::forget(c.borrow()); " if st == 3 else ""))
         if g in ("Rc", "Arc"):
             return "{ let r: %s<%s> = %s::new(%s); %sr }" % (g, ity, g, inner, "keep.push(Box::new(r.clone())); " if st == 2 else "")
         if g in ("Mutex", "RwLock"):
@@ -635,7 +637,7 @@ def coq_value(val):
     if k == "leaf":
         return "(VLeaf (%d%%N, %s))" % (val[1], coq_lval(val[2]))
     if k == "gate":
-        st = ["GSok", "GSabsent", "GSblocked"][val[1]]
+        st = ["GSok", "GSabsent", "GSblocked", "GSshared"][val[1]]
         return "(VGate %s %s)" % (st, coq_value(val[2]) if val[2] is not None else "(VProd [])")
     if k == "prod":
         sk = ["(VLeaf (0%%N, LInt %d))" % c for c in val[2]]
